@@ -11,6 +11,8 @@
                                      STARTTLS reply, or at connection start with tls_immediately=True);
                                      ('stall',) = never start the handshake, ('raw-stall', b'..') = send a
                                      fragment of a handshake record and go silent; default ('ok',) = handshake
+    'idle'                           consulted after an end-of-data reply was sent: ('raw-stall', b'..') = send these
+                                     bytes unasked on the now idle connection (e.g. half a 421 line), then silence
   tls_immediately=True               the connection starts with a TLS handshake (SMTPS-style next hop)
 
 deaf=True: a stalled connection does not read from its socket either (the default stall keeps reading and
@@ -122,7 +124,16 @@ class Downstream14(Downstream):
                 gevent.sleep(delta)
             return inner
         self._forced = a
-        return Downstream._send(self, f, c, ctx, stage, ok)
+        r = Downstream._send(self, f, c, ctx, stage, ok)
+        if stage.startswith('eod'):
+            # extra stage 'idle': what the next hop does, unasked, after answering the end of data
+            a2 = Downstream.action(self, ctx, 'idle')
+            if a2[0] == 'raw-stall':
+                f.write(a2[1])
+                f.flush()
+                self._begin_stall('idle', 'raw-stall')
+                self._silent(f)
+        return r
 
     def serve(self, sock, c):
         if self.tls_immediately and self._real_tls is not None:
